@@ -37,7 +37,10 @@ type AckScenario struct {
 	// second phase: started after Script has been played and the abandoned calls of phase one have returned
 	// Prompt: the broker answers every request by itself, and the transport's Write returns only after the client's
 	// reader has consumed the answer (the acknowledgement is dispatched before the caller gets to wait for it)
-	Prompt  bool          `json:"prompt,omitempty"`
+	Prompt bool `json:"prompt,omitempty"`
+	// EndBy: how the run ends while calls may still be waiting: "close" (default, the transport is closed) or
+	// "disconnect" (the application calls Disconnect): either way a call whose acknowledgement never came does not succeed
+	EndBy   string        `json:"endBy,omitempty"`
 	Calls2  []AckCall     `json:"calls2,omitempty"`
 	Script2 []AckStep     `json:"script2,omitempty"`
 	Batch   []AckScenario `json:"batch,omitempty"`
@@ -231,12 +234,33 @@ func runAcks(sc *AckScenario) *AckResult {
 		launch(len(sc.Calls), len(all))
 		play(sc.Script2)
 	}
+	if sc.Prompt {
+		// every request is answered: wait for the returns themselves (bounded), not for a quiet period
+		pdl := time.Now().Add(3 * time.Second)
+		for time.Now().Before(pdl) {
+			n := 0
+			for _, e := range rec.Snapshot() {
+				if e["e"] == "R" {
+					n++
+				}
+			}
+			if n >= len(all) {
+				break
+			}
+			time.Sleep(time.Millisecond)
+		}
+	}
 	// quiescence: no more returns for 30 ms (at most 1 s)
 	qdl := time.Now().Add(time.Second)
 	for time.Now().Before(qdl) && rec.Quiet() < 30*time.Millisecond {
 		time.Sleep(2 * time.Millisecond)
 	}
 	rec.Emit(netsim.Event{"e": "Q"})
+	if sc.EndBy == "disconnect" {
+		dctx, dcancel := context.WithTimeout(ctx, time.Second)
+		_ = cli.Disconnect(dctx)
+		dcancel()
+	}
 	cli.Close()
 	wg.Wait()
 	for _, e := range rec.Snapshot() {
